@@ -78,6 +78,11 @@ def verdicts (j : Json) (t : Table Float) : Json :=
 
 def handle (j : Json) : Json :=
   match getStr? j "op" with
+  | some "zero_bits" =>
+    -- `Float` is opaque to the kernel, so "missing reads back as 0" (`bits32 (ofInt 0)` is the float32 +0.0) is
+    -- established by running the driver's own `floatOps` (probe `float-zero-bits` of every check), not by a lemma
+    Json.mkObj [("bits32", ((floatOps.bits32 (floatOps.ofInt 0)).toNat : Json)), ("bits64", ((floatOps.bits64 (floatOps.ofInt 0)).toNat : Json)),
+                ("nan_is_nan", Json.bool (floatOps.isNaN (0.0 / 0.0))), ("zero_is_nan", Json.bool (floatOps.isNaN (floatOps.ofInt 0)))]
   | some "accepts" =>
     match getArr? j "cols" >>= parseCols with
     | some cols => Json.mkObj [("accepted", Json.bool (accepted cols))]
@@ -95,7 +100,12 @@ def handle (j : Json) : Json :=
         let tbl := match readEm f with
           | some t' => tableJson t'
           | none => err "reject:read"
-        Json.mkObj [("file", fileJson f true), ("table", tbl), ("verdicts", verdicts j t)]
+        -- the two dispatchers, at the type strings the real calls used (absent key = keyword omitted)
+        let wt := getStr? j "wtype"
+        let lt := getStr? j "ltype"
+        let disp := Json.mkObj [("write", Json.bool (motlWriteOut wt floatOps t == some f)),
+                                ("load", Json.bool ((motlLoad lt f).isSome == (readEm f).isSome && (motlLoad lt f).isSome))]
+        Json.mkObj [("file", fileJson f true), ("table", tbl), ("verdicts", verdicts j t), ("dispatch", disp)]
       | _ => err "bad-op"
     | _, _ => err "bad-args"
   | none => err "bad-args"
